@@ -176,6 +176,21 @@ impl Prop for C16 {
                     units.push(super::program_unit(p, Layout::L0, p.text.clone(), cfg));
                 }
             }
+            // error flags on: the report is non-empty and gets rendered (what the binary prints)
+            if thorough || gen::contexts(p.kind).first().map_or(false, |c| c.name == p.ctx) || p.depth >= 5 {
+                units.push(super::program_unit(
+                    p,
+                    Layout::L0,
+                    p.text.clone(),
+                    Cfg::new(2024).with("error_on_line_overflow", "true").with("error_on_unformatted", "true"),
+                ));
+                units.push(super::program_unit(
+                    p,
+                    Layout::L0,
+                    p.text.clone(),
+                    Cfg::new(2024).with("error_on_line_overflow", "true").with("error_on_unformatted", "true").with("tab_spaces", "8"),
+                ));
+            }
             // options whose code paths do width arithmetic of their own
             for (k, v) in [
                 ("format_strings", "true"),
@@ -250,6 +265,9 @@ impl Prop for C16 {
                 }
                 sink.sample(json!({"unit": u.key, "input": u.text, "config": u.cfg.label(), "width": w,
                     "status": format!("{:?}", out.status)}));
+            }
+            if let Some(m) = &out.render_panic {
+                sink.violation("C16", u, w, "panic while rendering the report", m.clone());
             }
             match &out.status {
                 Status::Panic(m) => sink.violation("C16", u, w, "panic", m.clone()),
